@@ -56,6 +56,7 @@ op = st.one_of(
     st.tuples(st.just("silent"), slot),
     st.tuples(st.just("reconnect"), slot),
     st.tuples(st.just("sdisc"), slot, st.sampled_from(["message", "update"])),
+    st.tuples(st.just("kick-on-connect"), slot),         # the handler disconnects that client from inside its connect event ("server full")
     st.tuples(st.just("raise"), st.sampled_from(EVENTS), st.integers(0, 3)),
     st.tuples(st.just("dup"), slot, st.floats(0, 1)),
     st.tuples(st.just("garbage"), slot, st.integers(0, 200), st.integers(0, 10 ** 6)),
@@ -91,6 +92,7 @@ class Automaton(object):
         self.pending = []      # violations found on the server thread
         self.kick_on_disconnect = None   # addr to kick from inside the next disconnect event
         self.shutdown_with_kick = False
+        self.kick_on_connect = set()
         self.flags = set()
         self.watches = {}      # id(client obj) -> ConnWatch (observation only), attached at the connect event
         self.handled = {}      # id(client obj) -> set of message seqnums handed to handle_message
@@ -131,6 +133,11 @@ class Automaton(object):
                             proof = True
                     except Exception:
                         pass
+            if c.addr in self.kick_on_connect:
+                self.kick_on_connect.discard(c.addr)
+                self.sdisc.add(id(c))
+                c.disconnect()                 # a server-initiated disconnect issued from inside the connect event
+                self.flags.add("kick-from-connect-event")
             if not proof:
                 ctx.violation("connect-without-handshake", "connect for %s without a delivered challenge response under its key/token" % (e["addr"],))
             if w.ctxt.connections.get(c.addr) is not c:
@@ -357,6 +364,14 @@ def body(ctx, c):
                 if live(k):
                     slots[k].alive = False
                     silent_since[id(slots[k])] = w.clock.t
+            elif name == "kick-on-connect":
+                k = o[1]
+                if slots[k] is None or not slots[k].alive:
+                    auto.kick_on_connect.add(addrs[k])
+                    slots[k] = w.add_client(laddr=addrs[k])
+                    slots[k].connect()
+                    step(8)
+                    flags.update(auto.flags)
             elif name == "sdisc":
                 k = o[1]
                 conn = w.ctxt.connections.get(addrs[k])
